@@ -121,17 +121,38 @@ def _identity_inst(t, callee, new_traits=()):
     want = names + [n for n in own if n not in names]
     got = []
     ncl = 0
+    nfree = 0
     for a in g:
-        if a.get("k") == "closure":
-            ncl += 1      # a closure handed to a `F: Fn..` parameter of the helper: its calls are resolved after inlining
+        if a.get("k") in ("closure", "fndef"):
+            ncl += 1      # a closure / function item handed to a `F: Fn..` parameter of the helper: its calls are resolved after inlining
             continue
         if a.get("k") != "param":
+            # a concrete type for a parameter the helper is PARAMETRIC in (no trait bound of its own on it, e.g. the result
+            # type `Q` of `fn build<Q, F: FnOnce(Self) -> Q>`): the body cannot do anything type-specific with it
+            idx = len(got) + ncl + nfree
+            free = [n for n in want if n in own and not _bounded(callee, n)]
+            if idx < len(want) and want[idx] in free:
+                nfree += 1
+                continue
             return False
         got.append(a["name"])
     # lifetimes are erased; an impl may declare parameters in another order than its self type mentions them
-    if ncl:
-        return len(got) + ncl == len(want) and all(x in want for x in got) and ncl <= len(own)
+    if ncl or nfree:
+        return len(got) + ncl + nfree == len(want) and all(x in want for x in got) and ncl + nfree <= len(own)
     return sorted(got) == sorted(want)
+
+
+def _bounded(callee, name):
+    """does the helper put a trait bound (other than markers) on its own generic parameter `name`?"""
+    for p in callee.get("preds") or []:
+        if p.get("kind") != "trait":
+            continue
+        tr = p.get("trait", "")
+        if tr.split("::")[-1] in ("Sized", "Send", "Sync", "Unpin", "Copy", "MetaSized", "PointeeSized"):
+            continue
+        if name in (p.get("self_params") or []):
+            return True
+    return False
 
 
 def _walk_places(x, fn):
